@@ -1441,6 +1441,13 @@ func c02EmitCase(w *bufio.Writer, co c02CaseOut, imgFor func(ki int, c c02CmdOut
 				fmt.Fprintf(w, "img %d %d %d\n", p[0], p[1], p[2])
 			}
 		}
+		// power loss right after an acknowledged Sync/Close: everything not fsynced is gone.  With the
+		// fsync in place this is the plain boundary image; without it the acknowledged records vanish.
+		if imgFor != nil && !co.Faulty && (f[0] == "sync" || f[0] == "close") && strings.HasPrefix(c.Res, "ok") {
+			if ls := c02LastSync(ops, len(ops)); ls < len(ops) {
+				fmt.Fprintf(w, "img %d %d 0\n", len(ops), ls)
+			}
+		}
 	}
 	fmt.Fprintln(w, "end")
 }
